@@ -4,7 +4,7 @@ import common
 SCEN = {
     "C01": ["serial_mix", "async_flood", "handoff_to_concurrent_target", "hierarchy", "pool_blocked"],
     "C02": ["serial_mix", "serial_syncish", "serial_each_api"],
-    "C03": ["hierarchy"],
+    "C03": ["hierarchy", "hierarchy_workloop"],
     "C04": ["concurrent_barriers", "concurrent_each_api", "width_exhaustion"],
     "C05": ["serial_syncish", "concurrent_barriers", "serial_each_api"],
 }
